@@ -77,19 +77,24 @@ type conf struct {
 }
 
 type hist struct {
-	c     *core.Ctx
-	t     *core.Trace
-	rng   *rand.Rand
-	home  string
-	seen  map[string][]byte
-	lg    *logfile.FileLogger
-	d, ms int
-	cf    conf
-	id    string
-	oname string
-	extN  int
-	err   error
-	stats map[string]int
+	c      *core.Ctx
+	t      *core.Trace
+	rng    *rand.Rand
+	root   string // private temporary directory; <home> is a sub-directory of it, so that <home> has siblings
+	home   string
+	seen   map[string][]byte
+	lseen  map[string]string // symbolic links below logs/ and what they were seen to lead to
+	rich   bool              // the temporary tree has siblings of logs/ and of <home>, and symbolic links
+	lr     *rand.Rand
+	beside []string // more files outside logs/ (relative to <home>)
+	lg     *logfile.FileLogger
+	d, ms  int
+	cf     conf
+	id     string
+	oname  string
+	extN   int
+	err    error
+	stats  map[string]int
 }
 
 func (h *hist) fail(f string, a ...interface{}) {
@@ -100,10 +105,12 @@ func (h *hist) fail(f string, a ...interface{}) {
 
 func (h *hist) logs() string { return filepath.Join(h.home, "logs") }
 
-// obs lists <home>/logs (and the files of <home> beside it) with the standard library.
+// obs lists <home>/logs (regular files, directories, symbolic links) and every regular file of the
+// temporary tree outside <home>/logs, with the standard library.
 func (h *hist) obs() core.Ev {
 	files := []core.Ev{}
 	dirs := []core.Bytes{}
+	links := []core.Ev{}
 	now := map[string][]byte{}
 	root := h.logs()
 	filepath.WalkDir(root, func(p string, de fs.DirEntry, err error) error {
@@ -117,6 +124,16 @@ func (h *hist) obs() core.Ev {
 		rel = filepath.ToSlash(rel)
 		if de.IsDir() {
 			dirs = append(dirs, core.Str(rel))
+			return nil
+		}
+		if de.Type()&fs.ModeSymlink != 0 {
+			lk := h.linkEv(rel)
+			key := fmt.Sprint(lk["to"], lk["file"], lk["data"])
+			if old, ok := h.lseen[rel]; ok && old != key {
+				h.fail("symbolic link %s leads somewhere else than before", rel)
+			}
+			h.lseen[rel] = key
+			links = append(links, lk)
 			return nil
 		}
 		if !de.Type().IsRegular() {
@@ -138,19 +155,55 @@ func (h *hist) obs() core.Ev {
 		return nil
 	})
 	h.seen = now
-	return core.Ev{"files": files, "dirs": dirs, "out": h.outside()}
+	return core.Ev{"files": files, "dirs": dirs, "links": links, "out": h.outside()}
 }
 
+// linkEv describes the symbolic link logs/<rel>: the real place it leads to as the segments of its path
+// relative to <home> (after a first segment [0] = <home>; ".." segments first when it is beside <home>;
+// empty: nowhere), whether that is a regular file, and the bytes of that file.  Standard library only.
+func (h *hist) linkEv(rel string) core.Ev {
+	p := filepath.Join(h.logs(), filepath.FromSlash(rel))
+	to := []core.Bytes{}
+	isFile := false
+	data := []byte{}
+	if real, err := filepath.EvalSymlinks(p); err == nil {
+		if r, err := filepath.Rel(h.home, real); err == nil {
+			to = append(to, core.Bytes{0})
+			if r != "." {
+				for _, seg := range strings.Split(filepath.ToSlash(r), "/") {
+					to = append(to, core.Str(seg))
+				}
+			}
+		}
+		if st, err := os.Stat(real); err == nil && st.Mode().IsRegular() {
+			if b, err := os.ReadFile(real); err == nil {
+				isFile, data = true, b
+			}
+		}
+	}
+	return core.Ev{"n": core.Str(rel), "to": to, "file": isFile, "data": core.Cp(data)}
+}
+
+// outside: every regular file of the temporary tree that is not below <home>/logs, named relative to <home>
+// (siblings of <home> begin with "../").  None of them may ever change.
 func (h *hist) outside() []core.Ev {
 	out := []core.Ev{}
-	es, _ := os.ReadDir(h.home)
-	for _, e := range es {
-		if e.Name() == "logs" || !e.Type().IsRegular() {
-			continue
+	logs := h.logs()
+	filepath.WalkDir(h.root, func(p string, de fs.DirEntry, err error) error {
+		if err != nil {
+			return nil
 		}
-		b, _ := os.ReadFile(filepath.Join(h.home, e.Name()))
-		out = append(out, core.Ev{"n": core.Str(e.Name()), "data": core.Cp(b)})
-	}
+		if p == logs {
+			return filepath.SkipDir
+		}
+		if !de.Type().IsRegular() {
+			return nil
+		}
+		rel, _ := filepath.Rel(h.home, p)
+		b, _ := os.ReadFile(p)
+		out = append(out, core.Ev{"n": core.Str(filepath.ToSlash(rel)), "data": core.Cp(b)})
+		return nil
+	})
 	return out
 }
 
@@ -204,6 +257,31 @@ func (h *hist) extDir(rel string) {
 		return
 	}
 	h.t.Emit(core.Ev{"ev": "ExtDir", "n": core.Str(rel)})
+}
+
+// extLink: somebody else creates the symbolic link logs/<rel> -> target.
+func (h *hist) extLink(rel, target string) {
+	p := filepath.Join(h.logs(), filepath.FromSlash(rel))
+	if _, err := os.Lstat(p); err == nil {
+		return
+	}
+	if err := os.Symlink(target, p); err != nil {
+		h.fail("seed link %s: %v", p, err)
+		return
+	}
+	lk := h.linkEv(rel)
+	h.lseen[rel] = fmt.Sprint(lk["to"], lk["file"], lk["data"])
+	lk["ev"] = "ExtLink"
+	h.t.Emit(lk)
+}
+
+// put writes a file of the temporary tree outside <home>/logs (before the Home event lists them).
+func (h *hist) put(relHome string, data string) {
+	p := filepath.Join(h.home, filepath.FromSlash(relHome))
+	os.MkdirAll(filepath.Dir(p), 0o755)
+	if err := os.WriteFile(p, []byte(data), 0o644); err != nil {
+		h.fail("layout %s: %v", p, err)
+	}
 }
 
 func (h *hist) curName() core.Bytes {
@@ -475,27 +553,149 @@ func (h *hist) seedDir(id, oname string, today int, full bool) []string {
 
 // ------------------------------------------------------------ the generators
 
+// begin makes the temporary tree: <root>/<home>/ with secret.log and r10 beside logs/ and, in a rich
+// history, directories and files whose names are derived from "logs" and from the name of <home>
+// (same beginning, a beginning of it, other case), inside <home> and beside it.
 func (h *hist) begin(gen string, cas int, extra core.Ev) bool {
-	home, err := os.MkdirTemp("", "verif-c17-home-")
+	root, err := os.MkdirTemp("", "verif-c17-")
+	if err == nil {
+		root, err = filepath.EvalSymlinks(root)
+	}
 	if err != nil {
 		h.fail("temp home: %v", err)
 		return false
 	}
-	h.home = home
+	h.root = root
 	h.seen = map[string][]byte{}
+	h.lseen = map[string]string{}
 	h.rng = h.c.Rng(gen, cas)
 	h.d, h.ms = 0, 0
 	h.stats = map[string]int{}
+	hn := "home"
+	if h.rich {
+		hn = []string{"home", "agent", "h", "logs"}[h.lrng().Intn(4)]
+	}
+	h.home = filepath.Join(root, hn)
+	if err := os.Mkdir(h.home, 0o755); err != nil {
+		h.fail("temp home: %v", err)
+		return false
+	}
 	h.t.Reset(gen, cas, extra)
-	os.WriteFile(filepath.Join(home, "secret.log"), []byte("outside-secret"), 0o644)
-	os.WriteFile(filepath.Join(home, "r10"), []byte("OUTSIDE-10"), 0o644)
+	h.put("secret.log", "outside-secret")
+	h.put("r10", "OUTSIDE-10")
+	for _, n := range h.beside {
+		h.put(n, "not in logs: "+n+"\n")
+	}
+	if h.rich {
+		h.layout(hn)
+	}
 	h.t.Emit(core.Ev{"ev": "Home", "out": h.outside()})
 	return true
 }
 
+// lrng: the random source of the layout, separate from the one of the history (so that a generator
+// that existed before draws what it drew before).
+func (h *hist) lrng() *rand.Rand {
+	if h.lr == nil {
+		h.lr = rand.New(rand.NewSource(h.rng.Int63() ^ 0x6c61796f7574))
+	}
+	return h.lr
+}
+
+// derived: names that have `base` as a beginning (at least two of them), are a beginning of it, differ in
+// case only, or end with it.
+func derived(r *rand.Rand, base string) []string {
+	longer := []string{base + "2", base + ".bak", base + "-archive", base + "x", base + "_old", base + " ", base + "."}
+	other := []string{base[:len(base)-1], strings.ToUpper(base), strings.ToUpper(base[:1]) + base[1:], "x" + base}
+	r.Shuffle(len(longer), func(i, j int) { longer[i], longer[j] = longer[j], longer[i] })
+	r.Shuffle(len(other), func(i, j int) { other[i], other[j] = other[j], other[i] })
+	return append(longer[:2+r.Intn(3)], other[:1+r.Intn(3)]...)
+}
+
+func (h *hist) layout(hn string) {
+	r := h.lrng()
+	k := 0
+	body := func() string { k++; return fmt.Sprintf("secret-%d\n", k) }
+	leaf := func() string {
+		return []string{"x", "r10", "whatap-boot.log", "inner.log", "whatap-boot-" + ymd(400+r.Intn(20000)) + ".log"}[r.Intn(5)]
+	}
+	// beside logs/
+	for _, d := range derived(r, "logs") {
+		switch r.Intn(4) {
+		case 0:
+			h.put(d+"/deep/"+leaf(), body())
+		case 1:
+			h.put(d, body()) // a regular file with such a name
+		default:
+			h.put(d+"/"+leaf(), body())
+			if r.Intn(2) == 0 {
+				h.put(d+"/"+leaf(), body())
+			}
+		}
+	}
+	h.put("other/"+leaf(), body())
+	if r.Intn(2) == 0 {
+		h.put("data/logs/"+leaf(), body())
+	}
+	if r.Intn(2) == 0 {
+		h.put("whatap.conf", "license=secret\n")
+	}
+	// beside <home>
+	for _, d := range derived(r, hn)[:2] {
+		if r.Intn(2) == 0 {
+			h.put("../"+d+"/logs/"+leaf(), body())
+		} else {
+			h.put("../"+d+"/"+leaf(), body())
+		}
+	}
+	if hn != "logs" && r.Intn(2) == 0 {
+		h.put("../logs/"+leaf(), body())
+	}
+}
+
+// layoutInside: what a rich history puts below logs/ itself: a sub-directory, a directory named like a
+// sibling of logs/, and symbolic links to files and directories inside and outside logs/.
+func (h *hist) layoutInside() {
+	r := h.lrng()
+	h.ext("sub/inner.log", []byte("inner file\n"))
+	h.ext("logs2/x", []byte("nested, not the sibling\n"))
+	// a sibling directory / file of logs/ that exists
+	var sibDir, sibFile string
+	es, _ := os.ReadDir(h.home)
+	for _, e := range es {
+		if e.Name() == "logs" {
+			continue
+		}
+		if e.IsDir() && (sibDir == "" || r.Intn(2) == 0) {
+			sibDir = e.Name()
+		}
+		if e.Type().IsRegular() && (sibFile == "" || r.Intn(3) == 0) {
+			sibFile = e.Name()
+		}
+	}
+	type lk struct{ n, to string }
+	all := []lk{
+		{"ln-file-in.log", "r10"},
+		{"ln-file-out.log", "../" + sibFile},
+		{"ln-file-abs.log", filepath.Join(h.home, "secret.log")},
+		{"ln-dir-out", "../" + sibDir},
+		{"ln-dir-in", "sub"},
+		{"ln-home", ".."},
+		{"ln-root", "../.."},
+		{"ln-self", "."},
+		{"ln-nowhere.log", "never-there"},
+		{"sub/ln-up", "../.."},
+	}
+	for _, l := range all {
+		if r.Intn(3) > 0 {
+			h.extLink(l.n, l.to)
+		}
+	}
+}
+
 func (h *hist) end(gen string, cas int) {
 	h.close()
-	os.RemoveAll(h.home)
+	os.RemoveAll(h.root)
 	keys := make([]string, 0, len(h.stats))
 	for k, v := range h.stats {
 		if v > 0 {
@@ -524,35 +724,78 @@ func (h *hist) randStart() (int, int) {
 	return d, ms
 }
 
-func (h *hist) readArgs(names []string) (string, int64, int64) {
-	r := h.rng
-	var file string
-	var size int64 = 10
-	pick := func() string {
-		if len(names) == 0 || r.Intn(5) == 0 {
-			return filepath.Base(string(h.curName()))
+// pathNames derives Read names from the temporary tree as it is now: for everything outside logs/ the ways a
+// name joined below logs/ can get there (dot-dot forms, through a non-existing or an existing sub-directory,
+// with doubled and trailing slashes, the absolute path), for everything inside logs/ the ways to say it with a
+// path, and for symbolic links to directories the entries below them (two levels).  Not derived: names that
+// leave <home> and come back into it (the specification does not know what <home> is called), the absolute
+// path of a file inside logs/, and a ".." after a segment that is a symbolic link.
+func (h *hist) pathNames() []string {
+	var out []string
+	logs := h.logs()
+	inside := func(rel string) {
+		out = append(out, rel, "./"+rel, "../logs/"+rel, "sub/../"+rel, "nosuch/../"+rel, "/"+rel, rel+"/", "//"+rel, "logs/../"+rel)
+		if !strings.Contains(rel, "/") { // names that are nearly this one: none of them exists
+			out = append(out, rel+"\x00", rel+"\x00.log", rel+" ", " "+rel, rel+".", rel+"\\", rel[:len(rel)-1]+"?", rel[:1]+"*",
+				strings.ToUpper(rel)+"_", "%2e/"+rel, ".../"+rel)
 		}
-		return names[r.Intn(len(names))]
 	}
-	switch r.Intn(12) {
-	case 0:
-		file = "../secret.log"
-	case 1:
-		file = "../r10"
-	case 2:
-		file = "sub/../" + pick()
-	case 3:
-		file = "/" + pick()
-	case 4:
-		file = "../logs/" + pick()
-	case 5:
-		file = []string{"", ".", "..", "missing.log", "emptydir", "sub", "./r10", "sub/../../secret.log", "../../../../../../etc/hostname", "r10/", "//r10"}[r.Intn(11)]
-	default:
-		file = pick()
+	outsideOf := func(p string) {
+		rel, _ := filepath.Rel(logs, p) // begins with ../
+		rel = filepath.ToSlash(rel)
+		if len(rel) < 3 { // <home> itself
+			out = append(out, rel, rel+"/", "./"+rel, "sub/../"+rel)
+			return
+		}
+		out = append(out, rel, "./"+rel, "sub/../"+rel, "nosuch/../"+rel, "../logs/"+rel, "/"+rel, "..//"+rel[3:], rel+"/",
+			"logs/../"+rel, p, "/"+p, strings.Replace(rel, "/", "\\", -1),
+			"%2e%2e/"+rel[3:], "..%2f"+rel[3:], "....//"+rel[3:], ".../"+rel[3:], rel+"\x00", "..\x00/"+rel[3:])
 	}
-	if b, ok := h.seen[strings.TrimPrefix(file, "/")]; ok {
-		size = int64(len(b))
+	var through func(rel, p string, depth int)
+	through = func(rel, p string, depth int) { // p is a directory reached through a symbolic link
+		es, _ := os.ReadDir(p)
+		for _, e := range es {
+			r2, p2 := rel+"/"+e.Name(), filepath.Join(p, e.Name())
+			if real, err := filepath.EvalSymlinks(p2); err == nil && real == h.home { // from above <home> back into it: not derived
+				continue
+			}
+			out = append(out, r2, "./"+r2, "nosuch/../"+r2)
+			if st, err := os.Stat(p2); err == nil && st.IsDir() && depth < 2 {
+				through(r2, p2, depth+1)
+			}
+		}
 	}
+	filepath.WalkDir(h.root, func(p string, de fs.DirEntry, err error) error {
+		if err != nil || p == h.root || p == logs {
+			return nil
+		}
+		if strings.HasPrefix(p, logs+string(filepath.Separator)) {
+			rel, _ := filepath.Rel(logs, p)
+			rel = filepath.ToSlash(rel)
+			inside(rel)
+			if de.Type()&fs.ModeSymlink != 0 {
+				if st, err := os.Stat(p); err == nil && st.IsDir() {
+					through(rel, p, 1)
+				}
+			}
+			return nil
+		}
+		outsideOf(p)
+		return nil
+	})
+	return out
+}
+
+// sizeOf: the size of what a name joined below logs/ leads to (10 if nothing), for choosing windows.
+func (h *hist) sizeOf(file string) int64 {
+	if st, err := os.Stat(filepath.Join(h.logs(), file)); err == nil && st.Mode().IsRegular() && st.Size() < 1<<20 {
+		return st.Size()
+	}
+	return 10
+}
+
+func (h *hist) window(size int64) (int64, int64) {
+	r := h.rng
 	var end int64
 	switch r.Intn(9) {
 	case 0:
@@ -583,12 +826,54 @@ func (h *hist) readArgs(names []string) (string, int64, int64) {
 	default:
 		length = int64(r.Intn(int(2*size) + 2))
 	}
+	return end, length
+}
+
+func (h *hist) readArgs(names []string) (string, int64, int64) {
+	r := h.rng
+	var file string
+	var size int64 = 10
+	pick := func() string {
+		if len(names) == 0 || r.Intn(5) == 0 {
+			return filepath.Base(string(h.curName()))
+		}
+		return names[r.Intn(len(names))]
+	}
+	if h.rich && r.Intn(2) == 0 {
+		pn := h.pathNames()
+		file = pn[r.Intn(len(pn))]
+		end, length := h.window(h.sizeOf(file))
+		if r.Intn(3) == 0 { // a window that exists whatever the size
+			end, length = -1, int64(1+r.Intn(40))
+		}
+		return file, end, length
+	}
+	switch r.Intn(12) {
+	case 0:
+		file = "../secret.log"
+	case 1:
+		file = "../r10"
+	case 2:
+		file = "sub/../" + pick()
+	case 3:
+		file = "/" + pick()
+	case 4:
+		file = "../logs/" + pick()
+	case 5:
+		file = []string{"", ".", "..", "missing.log", "emptydir", "sub", "./r10", "sub/../../secret.log", "../../../../../../etc/hostname", "r10/", "//r10"}[r.Intn(11)]
+	default:
+		file = pick()
+	}
+	if b, ok := h.seen[strings.TrimPrefix(file, "/")]; ok {
+		size = int64(len(b))
+	}
+	end, length := h.window(size)
 	return file, end, length
 }
 
 // genSeq: random sequential histories over every action.
 func genSeq(c *core.Ctx, t *core.Trace, cas int, steps int) error {
-	h := &hist{c: c, t: t}
+	h := &hist{c: c, t: t, rich: cas%2 == 1}
 	if !h.begin("seq", cas, nil) {
 		return h.err
 	}
@@ -600,6 +885,10 @@ func genSeq(c *core.Ctx, t *core.Trace, cas int, steps int) error {
 	var names []string
 	if r.Intn(5) > 0 {
 		names = h.seedDir(id, oname, d, false)
+	}
+	if h.rich {
+		h.ext("r10", []byte("0123456789"))
+		h.layoutInside()
 	}
 	h.open(id, oname, r.Intn(4))
 	if h.lg == nil {
@@ -646,12 +935,15 @@ func genSeq(c *core.Ctx, t *core.Trace, cas int, steps int) error {
 // genRetain: retention in focus -- full look-alike directory, every keep-days value, several cycles.
 func genRetain(c *core.Ctx, t *core.Trace, cas int) error {
 	h := &hist{c: c, t: t}
+	id, oname := idPool[cas%len(idPool)], onamePool[(cas/len(idPool))%len(onamePool)]
+	// files named like expired own logs that are not in logs/: beside it, in a directory named like it, beside <home>
+	old := id + "-" + oname + "-" + ymd(10) + ".log"
+	h.beside = []string{old, "logs2/" + old, "logs.bak/" + old, "../" + old, "../home2/logs/" + old}
 	if !h.begin("retain", cas, nil) {
 		return h.err
 	}
 	defer h.end("retain", cas)
 	r := h.rng
-	id, oname := idPool[cas%len(idPool)], onamePool[(cas/len(idPool))%len(onamePool)]
 	d, ms := h.randStart()
 	h.clock(d, ms)
 	h.seedDir(id, oname, d, true)
@@ -674,7 +966,7 @@ func genRetain(c *core.Ctx, t *core.Trace, cas int) error {
 
 // genRead: Read in focus -- every file of a small directory, hostile names, border windows.
 func genRead(c *core.Ctx, t *core.Trace, cas int, n int) error {
-	h := &hist{c: c, t: t}
+	h := &hist{c: c, t: t, rich: true}
 	if !h.begin("read", cas, nil) {
 		return h.err
 	}
@@ -687,6 +979,7 @@ func genRead(c *core.Ctx, t *core.Trace, cas int, n int) error {
 	h.ext("r37.log", []byte("line one\nline two\nline three 37 bytes"))
 	h.ext("sub/inner.log", []byte("inner file\n"))
 	h.extDir("emptydir")
+	h.layoutInside()
 	h.open("whatap", "boot", 1)
 	if h.lg == nil {
 		return h.err
@@ -697,6 +990,16 @@ func genRead(c *core.Ctx, t *core.Trace, cas int, n int) error {
 		for e := int64(-1); e <= 11; e++ {
 			for l := int64(-1); l <= 12; l += 1 + int64(r.Intn(2)) {
 				h.read("r10", e, l)
+			}
+		}
+	}
+	if cas%3 == 1 { // every name the tree gives rise to, with a window that exists whatever the file
+		for _, f := range h.pathNames() {
+			if r.Intn(4) == 0 {
+				e, l := h.window(h.sizeOf(f))
+				h.read(f, e, l)
+			} else {
+				h.read(f, -1, int64(1+r.Intn(40)))
 			}
 		}
 	}
